@@ -206,12 +206,13 @@ class HistGen:
             if isinstance(out, dict) and out.get("kind") == "fail" and "code" not in out and out["f"] in STATUS_CODES:
                 out["code"] = self.rng.choice(STATUS_CODES[out["f"]])
         for i, o in enumerate(self.ops[:-1]):                  # some transactions arrive right behind a harvest request
-            if o["op"] == "tick" and self.ops[i + 1]["op"] == "txn" and self.rng.random() < 0.6:
+            if o["op"] == "tick" and self.ops[i + 1]["op"] == "txn" and not self.ops[i + 1].get("hold") and self.rng.random() < 0.6:
                 o["fuse"] = True
         i = 0                                                  # runs of transactions arriving back to back on one connection
         while i < len(self.ops):
             j = i
-            while j < len(self.ops) and self.ops[j]["op"] == "txn" and not (j > 0 and self.ops[j - 1].get("fuse")):
+            while j < len(self.ops) and self.ops[j]["op"] == "txn" and not (j > 0 and self.ops[j - 1].get("fuse")) \
+                    and not self.ops[j].get("hold"):
                 j += 1
             if j - i >= 2 and self.rng.random() < 0.5:
                 for o in self.ops[i:j]:
@@ -556,6 +557,52 @@ class HistGen:
         self.ops.append({"op": "appinfo", "key": 260, "dt": False, "id": None})
 
 
+    def full_txn(self, run):
+        """one transaction with data of nine categories (caps 100 assumed): a harvest of everything then makes nine requests"""
+        prio = self.newprio()
+        items = [{"cat": "txnev", "tag": self.newtag(), "prio": prio, "key": 0},
+                 {"cat": "metrics", "tag": self.newtag(), "prio": 0, "key": self.rng.randint(1, 6), "slot": self.mslot}]
+        self.mslot += 1
+        self.count(run, "txnev", 100)
+        for c in ("custom", "errev", "span", "log"):
+            items.append({"cat": c, "tag": self.newtag(), "prio": prio, "key": 0})
+            self.count(run, c, 100)
+        items.append({"cat": "errors", "tag": self.newtag(), "prio": self.newprio(1, 10 ** 6), "key": 0})
+        self.count(run, "errors", 20)
+        k = self.rng.randint(1, 12)
+        items.append({"cat": "slow", "tag": self.newtag(), "prio": self.newprio(1, 10 ** 6), "key": k, "slot": self.sslot})
+        self.sslot += 1
+        self.count(run, "slow/%d" % k, 10 ** 9)
+        items.append({"cat": "traces", "tag": self.newtag(), "prio": self.newprio(1, 10 ** 6), "key": 0})
+        self.count(run, "traces/0", 1)
+        self.ops.append({"op": "txn", "run": run, "prio": prio, "synth": False, "items": items, "pkgs": None})
+
+    def p_outage(self):
+        """C02: a collector outage answers many outstanding requests of several applications with a retryable status AT ONCE,
+        while the processor is busy with a transaction (seeded/C02h1: failure reports beyond a buffer were dropped, their data
+        never carried over).  Two applications x nine requests; sixteen of them fail together, none of them the last of its
+        harvest (the data usage request of a harvest follows its last answer: kept out of the burst)."""
+        rng = self.rng
+        caps = {c: 100 for c in EVENT_CATS}
+        ra = self.connect(1, dt=True, caps=caps)
+        rb = self.connect(2, dt=True, caps=caps)
+        self.full_txn(ra)
+        self.full_txn(rb)
+        self.tick(ah=0, ty=ALL)
+        self.tick(ah=1, ty=ALL)
+        self.txn(rng.choice([ra, rb]), rich=0.0)
+        self.ops[-1]["hold"] = True
+        f = rng.choice(["retry", "retry", "retry", "other"])
+        for n in [0] * 8 + [1] * 8:
+            self.ops.append({"op": "reply", "n": n, "out": {"kind": "fail", "f": f}, "atonce": True})
+        self.drain(6, {"ok": 1})
+        if rng.random() < 0.5:
+            self.full_txn(ra)
+        self.tick(ah=0, ty=ALL)
+        self.tick(ah=1, ty=ALL)
+        self.drain(24, {"ok": 1})
+        self.exit("ok")
+
     def p_tablefull(self):
         """C03: verdicts are remembered when the application table is full and everybody has been silent for long
         (seeded/C03g1: a sweep of idle applications that hold no run forgot the terminal ones)"""
@@ -823,6 +870,25 @@ def go_ops(ops):
             skip = True
         else:
             out.append(o)
+    # a transaction marked "hold" followed by replies marked "atonce": the answers are given all at once while the processor
+    # is still busy with that transaction
+    i = 0
+    while i < len(out):
+        o = out[i]
+        if o.get("op") == "txn" and o.get("hold"):
+            j = i + 1
+            while j < len(out) and out[j].get("op") == "reply" and out[j].get("atonce"):
+                j += 1
+            if j - i >= 2:
+                t = dict(o)
+                t.pop("wire", None)
+                t["replies"] = out[i + 1:j]
+                out[i] = t
+                for k in range(i + 1, j):
+                    out[k] = {"op": "nop"}
+            i = j
+        else:
+            i += 1
     # transactions marked "wire" that follow each other: the first carries the others ("burst"), their own steps are empty
     i = 0
     while i < len(out):
